@@ -22,14 +22,14 @@ def Pc.holds : Pc → Nat → Bool
   | .stReap k, q | .stScanLock k, q | .stScan _ k, q | .stScanHeld _ k, q | .stScanRel _ _ k, q
   | .stScanUnlock _ k, q | .stReadMax k, q | .stSpawn _ k, q | .stSpawnRel k, q => k.holds q
   | .rqCs _ k, q | .rqNotifyAcq _ _ _ k, q | .rqNotify _ _ _ k, q | .rqNotifyRel _ _ _ k, q | .rqPush _ k, q => k.holds q
-  | .waking _ k, q | .openSend _ k, q | .wqCs _ k, q | .wtCs _ _ k, q | .wtUnpark _ k, q | .lwCs _ k, q | .dwCs _ k, q => k.holds q
+  | .resumeSend _ k, q | .waking _ k, q | .openSend _ k, q | .wqCs _ k, q | .wtCs _ _ k, q | .wtUnpark _ k, q | .lwCs _ k, q | .dwCs _ k, q => k.holds q
   | .siIdle q' _, q => q' == q
   | .sdPush q' _, q | .sdCheck q' _, q | .sdIdle q', q => q' == q
   | .sbClaimRel q' _ c, q => c && q' == q
   | .sbRelReady q' _, q | .sbStealTest q' _, q | .sbStealIdle q' _, q => q' == q
   | .rjDequeue _ k, q | .rjPending _ _ k, q | .rjParkCheck _ _ k, q | .rjPark _ _ k, q | .rjParked _ _ k, q => k.holds q
   | .jobStart _ c k, q | .jobAwait _ c k, q | .jobBodyDone _ c k, q | .jobEnd _ c k, q | .jobSignal _ c k, q
-  | .jobSigDrop _ c k, q | .jobDrop _ c k, q | .jobDropNotify _ c k, q =>
+  | .jobSigDrop _ c k, q | .jobDrop _ c k, q | .jobDropNotify _ c k, q | .suspSignal _ c k, q | .suspSigDrop _ c k, q =>
       (match c with | .caller _ => k.holds q | .pool _ q' => q' == q | .task _ _ q' => q' == q)
   | .ptUnlockSched _ g, q | .ptUnlockBusy _ g, q => gotHolds g q
   | .pdDequeue _ q', q | .pdRequeue _ q' _, q | .pdPending _ q', q | .pdExit _ q', q => q' == q
